@@ -584,7 +584,7 @@ const rule = "Descriptive statistics of rapid-generated data (n 0..200, data = o
 	"permuted / ascending+Sorted; weighted = expanded unweighted. Histories: generated op lists (sort, copy then scribble on " +
 	"the other, permute, query) on a Sample against the invariant (value,weight) multiset and fresh exact statistics. vec: " +
 	"Linspace/Logspace/Map/Vectorize/Concat/Sum identities. Tolerances 8*n*eps*condition. Non-trivial: n>=3 and (offset/spread " +
-	">= 1e3 or weights present or a Sort after a permute); distinct = different canonical JSON."
+	">= 1e3 or weights present or a Sort after a permute); distinct = different canonical JSON. Later additions: nearly sorted orders (late values appended behind a sorted bulk, two runs, rotations, ...) in the permute steps, a sort/append/sort/query scenario, samples up to 100 values."
 
 func drawData(t *rapid.T, n int, positive bool) []float64 {
 	spread := gen.LogUniform(t, 1e-3, 1e3, "spread")
